@@ -21,6 +21,18 @@ EVID = os.path.join(VERIF, "evidence")
 REPLAYS = os.path.join(VERIF, "replays")
 KNOWN = os.path.join(VERIF, "known_findings.json")
 REPO = "/repo"
+# Runs against a scratch worktree (VERIF_REPO, used only to try seeded mutations) keep their work files, evidence and
+# replays to themselves: the committed evidence/ always describes /repo, and such runs can go on next to ordinary ones.
+BASEWORK = WORK
+_alt = os.environ.get("VERIF_REPO")
+if _alt and os.path.realpath(_alt) != "/repo":
+    import hashlib as _h
+    _d = os.path.join(WORK, "alt", _h.sha1(os.path.realpath(_alt).encode()).hexdigest()[:10])
+    WORK = os.path.join(_d, "w")
+    EVID = os.path.join(_d, "evidence")
+    REPLAYS = os.path.join(_d, "replays")
+    for _x in (WORK, EVID, REPLAYS):
+        os.makedirs(_x, exist_ok=True)
 TLA_CP = "/opt/veriftools/tla/tla2tools.jar:/opt/veriftools/tla/CommunityModules-deps.jar"
 
 
@@ -44,7 +56,7 @@ def harness_dir():
     if not alt or os.path.realpath(alt) == "/repo":
         return HARNESS
     alt = os.path.realpath(alt)
-    d = os.path.join(WORK, "alt", hashlib.sha1(alt.encode()).hexdigest()[:10])
+    d = os.path.join(BASEWORK, "alt", hashlib.sha1(alt.encode()).hexdigest()[:10])
     os.makedirs(d, exist_ok=True)
     for root, dirs, files in os.walk(HARNESS):
         dirs[:] = [x for x in dirs if x != "target"]
